@@ -92,6 +92,15 @@ func (t *Trimmer) markService(svc *parser.Service, ast *parser.Thrift, filename 
 						break
 					}
 				}
+			} else {
+				// a base service defined in the same file: services of an included file are only
+				// visited from here, never by markAST
+				for _, service := range ast.Services {
+					if service.Name == svc.Extends {
+						t.markService(service, ast, filename)
+						break
+					}
+				}
 			}
 		}
 	}
